@@ -26,18 +26,18 @@ NWORKERS = int(os.environ.get("VERIF_WORKERS", "16"))
 # runs per (property, tier) and configuration. Fixed numbers, so that one seed explores the same set every time.
 BUDGET = {
     "C01": {"quick": {"malloc": 120000, "heap": 40000, "noinfo": 40000, "dtostre": 40000},
-            "thorough": {"malloc": 4000000, "heap": 1500000, "noinfo": 1500000, "dtostre": 1500000}},
-    "C02": {"quick": {"malloc": 150000}, "thorough": {"malloc": 6000000}},
-    "C05": {"quick": {"malloc": 150000}, "thorough": {"malloc": 6000000}},
-    "C06": {"quick": {"malloc": 150000}, "thorough": {"malloc": 6000000}},
+            "thorough": {"malloc": 6000000, "heap": 2000000, "noinfo": 2000000, "dtostre": 2000000}},
+    "C02": {"quick": {"malloc": 150000}, "thorough": {"malloc": 12000000}},
+    "C05": {"quick": {"malloc": 150000}, "thorough": {"malloc": 30000000}},
+    "C06": {"quick": {"malloc": 150000}, "thorough": {"malloc": 30000000}},
     "C08": {"quick": {"malloc": 100000}, "thorough": {"malloc": 4000000}},
-    "C09": {"quick": {"malloc": 100000}, "thorough": {"malloc": 4000000}},
+    "C09": {"quick": {"malloc": 100000}, "thorough": {"malloc": 12000000}},
     "C10": {"quick": {"malloc": 120000, "noinfo": 60000}, "thorough": {"malloc": 4000000, "noinfo": 2000000}},
-    "C11": {"quick": {"malloc": 200000}, "thorough": {"malloc": 8000000}},
+    "C11": {"quick": {"malloc": 200000}, "thorough": {"malloc": 16000000}},
     "C12": {"quick": {"malloc": 200000}, "thorough": {"malloc": 8000000}},
-    "C17": {"quick": {"malloc": 100000}, "thorough": {"malloc": 4000000}},
+    "C17": {"quick": {"malloc": 100000}, "thorough": {"malloc": 8000000}},
     "C18": {"quick": {"malloc": 100000, "heap": 100000}, "thorough": {"malloc": 3000000, "heap": 3000000}},
-    "C20": {"quick": {"heap": 200000}, "thorough": {"heap": 8000000}},
+    "C20": {"quick": {"heap": 200000}, "thorough": {"heap": 6000000}},
 }
 TIME_CAP = {"quick": 60, "thorough": 1500}     # seconds per worker batch; only guards against a slow machine
 WITNESS_RUNS = {"quick": 4000, "thorough": 40000}
